@@ -178,6 +178,15 @@ fn gen_dur(rng: &mut Rng) -> Arg {
     const CS: [i16; 15] = [i16::MIN, i16::MIN + 1, -32766, -4, -3, -2, -1, 0, 1, 2, 3, 4, 32765, i16::MAX - 1, i16::MAX];
     let npc = NPC as u64;
     let ns: [u64; 12] = [0, 1, 2, 5, 1_000_000_000, 86_400_000_000_000, npc / 2, npc / 2 + 1, npc - 2, npc - 1, npc, npc + 1];
+    if rng.below(5) == 0 {
+        // instants within +/- 45 s of an entry of the IERS table (UTC or TAI count), at nanosecond resolution
+        let tab = leap_table();
+        let (ts, _) = tab[rng.below(tab.len() as u64) as usize];
+        let off = rng.below(90_000_000_001) as i128 - 45_000_000_000;
+        let off = if rng.below(3) == 0 { (off / 1_000_000_000) * 1_000_000_000 + [0i128, 1, -1, 999_999_999][rng.below(4) as usize] } else { off };
+        let (c, n) = parts_of(ts * 1_000_000_000 + off);
+        return Arg::Dur(c, n);
+    }
     let c = if rng.below(4) == 0 { rng.next() as i16 } else { CS[rng.below(15) as usize] };
     let n = match rng.below(6) {
         0 => rng.next() % (npc + 1),
